@@ -1,5 +1,6 @@
 """C08: bounded history exploration on one CID object (the deductive part is the reset-first obligations of Reader.rows / Writer.__init__ and the reset() contracts)."""
 import io, itertools
+from vf import findings
 from vf.unit import NativeUnit, sweep
 from vf.model import *
 
@@ -86,7 +87,43 @@ def unit_history_sweep():
                 if got != fresh_outcome[(text, op)]:
                     return {"expected": "run %d (%s) behaves as on a freshly loaded CID: %r" % (i + 1, op, fresh_outcome[(text, op)]), "observed": repr(got)}
             return None
-        return [sweep("C08/history/every run equals the same run on a fresh CID", cases(), check, "bounded",
+        # runs that overlap in time on one CID object (recorded finding K-11: the state of the checks lives in the Cid, not in the reader / writer)
+        def overlap(kind):
+            from cutplace import validio, errors
+            cid = interface.create_cid_from_string(CID_TEXT)
+            if kind == "late_close":        # run A reads everything, run B reads and closes, then A is closed: A's end-of-data verdict has to be A's
+                a = validio.Reader(cid, io.StringIO(MANY)); rows_a = list(a.rows())
+                list(validio.rows(cid, io.StringIO(CLEAN)))
+                try: a.close(); got = ("ok", rows_a)
+                except errors.DataError as e: got = ("DataError", type(e).__name__, str(e.location), e.message[:40])
+                return got, fresh_outcome[(CID_TEXT, "read_many")]
+            if kind == "copy_loop":         # for row in rows(cid, source): writer.write_row(row) - reader and writer bound to the same Cid
+                out = io.StringIO(); res = []
+                with validio.Writer(cid, out) as w:
+                    for row in validio.rows(cid, io.StringIO(CLEAN)):
+                        try: w.write_row(row); res.append("w")
+                        except errors.DataError as e: res.append("rejected:" + e.message[:30])
+                return (res, out.getvalue()), (["w", "w"], "1,a\r\n2,b\r\n")
+            if kind == "two_writers":       # the second writer refuses a key only the first one wrote
+                w1 = validio.Writer(cid, io.StringIO()); w2 = validio.Writer(cid, io.StringIO()); res = []
+                for w in (w1, w2):
+                    try: w.write_row(["1", "a"]); res.append("w")
+                    except errors.DataError as e: res.append("rejected")
+                return res, ["w", "w"]
+        known11 = findings.is_known("K-11", "C08"); k11 = []
+        def overlap_check(kind):
+            got, want = overlap(kind)
+            if got == want: return None
+            if known11: k11.append((kind, got, want)); return None
+            return {"expected": "as on a CID of its own: %r" % (want,), "observed": repr(got)}
+        extra = [sweep("C08/history/runs that overlap in time on one CID object", ["late_close", "copy_loop", "two_writers"], overlap_check, "bounded",
+                       "3 overlapping shapes: a reader closed after another run, the copy loop (reader and writer on one Cid), two writers" + (" (recorded finding K-11)" if known11 else ""),
+                       describe=lambda k: {"shape": k}, function="validio.Reader / Writer on one Cid", unit="C08.history", props=["C08", "C05", "C14"])]
+        if k11:
+            kind, got, want = k11[0]
+            extra.append(Result("C08/K-11 witness: runs overlapping on one CID object share the state of its checks (%s)" % ", ".join(k[0] for k in k11), "bounded", FAILED, "native", finding="K-11", cases=len(k11), props=["C08", "C05", "C14"],
+                                detail=repr(got)[:300], replay={"verdict": "confirmed", "input": {"shape": kind}, "expected": repr(want), "observed": repr(got)}))
+        return extra + [sweep("C08/history/every run equals the same run on a fresh CID", cases(), check, "bounded",
                       "all sequences of 1-3 operations and every 9th sequence of 4 (all of them + 2000 random sequences of 5-9 in thorough) over %s on one CID object with IsUnique and DistinctCount checks (delimited; sequences of 1-2 also on a fixed-format CID)" % OPS,
                       describe=lambda s: {"operations": list(s)}, function="validio.rows / Reader / Writer on one Cid", unit="C08.history")]
     return NativeUnit("C08.history", "bounded exploration of operation histories on one CID object", ["C08"], run, kind="bounded")
